@@ -23,6 +23,7 @@ func Any(parsers ...parsley.Parser) parser.Func {
 		cp := data.EmptyIntSet
 		var res parsley.Node
 		var err parsley.Error
+		var notFoundErr parsley.Error // last "not found" error at our own position, used only if nothing else is left to report
 		for _, p := range parsers {
 			ctx.RegisterCall()
 			res2, cp2, err2 := p.Parse(ctx, leftRecCtx, pos)
@@ -31,8 +32,15 @@ func Any(parsers ...parsley.Parser) parser.Func {
 			if err2 != nil && (err == nil || err2.Pos() >= err.Pos()) {
 				if err2.Pos() > pos || !parsley.IsNotFoundError(err2) {
 					err = err2
+				} else {
+					notFoundErr = err2
 				}
 			}
+		}
+
+		if err == nil {
+			// never lose the last expectation: without this a failed parse could end as (nil, nil)
+			err = notFoundErr
 		}
 
 		if res == nil {
